@@ -165,3 +165,14 @@ Proof.
   intros H. inversion H; subst.
   destruct (unify_arrays_sound _ _ _ wf_nil U) as [W _]. auto.
 Qed.
+
+(* the database after an extended history is the fold of the atomic updates of its events, each applied to the
+   database current at that moment (no update is lost, none is altered afterwards by what the cursors do), and
+   identities stay unique: no_lost_update of the cursor machine, transported along xrun_is_run *)
+From YP Require Import Engine.DbCursorThms.
+Corollary xrun_no_lost_update fuel xs x x' es outs :
+  ids_ok (sdb (xs_st x)) (snext (xs_st x)) -> xrun fuel x xs = Some (x', es, outs) ->
+  (forall k, sdb (xs_st x') k = apply_outs outs (sdb (xs_st x)) k) /\ ids_ok (sdb (xs_st x')) (snext (xs_st x')).
+Proof.
+  intros I H. destruct (xrun_is_run _ _ _ H) as [R _]. exact (@no_lost_update _ _ _ _ _ I R).
+Qed.
